@@ -3,7 +3,7 @@
 \* for the standard and sliding detectors; the harness rewrites Kinds/MaxLen for the
 \* fading-memory detector (whose accumulator does not merge).
 SPECIFICATION Spec
-CONSTANTS Kinds = {"standard", "sliding"} Windows = {1, 2, 3, 4} NAlpha = 3
+CONSTANTS Kinds = {"standard", "sliding"} Windows = {1, 2, 3, 4} NAlpha = 3 Bank = FALSE
           NisVals = {0, 1, 2, 3, 4} NisDen = 1 Dims = {1, 2, 3}
           MaxLen = 6 FadeLen = 6 Trim = FALSE KeepHist = FALSE
 CONSTANT Deltas <- DeltasQuick
